@@ -23,6 +23,9 @@ CLAIMED = {
 CLAIMED["C19"] = ("Partial, compositional treatment of concurrency safety: (1) lock discipline of all 33 MemoryStore methods (present and absent keys): every access to a table happens with that table's mutex held (exclusively for writes) and no table access or lock acquisition follows the operation's first release (two-phase => each store operation is atomic), decided on a ghost lockset maintained while the real methods are executed symbolically; (2) the (held -> acquired) pairs over all methods form a DAG (no deadlock among store methods); (3) no request writes to shared provider objects (Config, Fosite, handlers, clients) outside a mutex while the code, refresh, introspection, revocation and password flows run on one composed provider. A finding is confirmed natively by running the same operations from two goroutines under the race detector. Enumeration of interleavings of whole API operations is NOT done by this technique and not claimed.", "6/C19",
          "symbolic execution of Go SSA (own engine) with ghost lockset / lock-order graph / shared-write watch; confirmation by go test -race replay")
 
+CLAIMED["C18"] = ("Fault-position bounded model checking: the real token-endpoint flows (quick: authorization-code redeem, refresh, refresh-reuse handling; thorough adds password, client_credentials, revocation, PKCE redeem, device poll, PAR push/use, authorize-endpoint issuance and pairs of faults) run symbolically against a wrapper over the real MemoryStore that fails the storage call whose running index equals a SYMBOLIC fault index (0..24, so the solver covers every call site) with each error kind, and that implements storage.Transactional with real snapshot/rollback; then a clean retry and a replay. Asserted: fault reached => refused and no token in any response; serialization failure => the retry-hint error; begin/commit/rollback trace well-formed; fault inside the transaction => store equals the pre-request snapshot, retry succeeds, later replay refused; otherwise fail-closed.", "6/C18",
+         "symbolic execution of Go SSA (own engine) + SMT (cvc5) with symbolic fault index over a transactional fault-injecting store wrapper; native replay")
+
 NOT_YET = {}
 
 def main():
